@@ -541,6 +541,27 @@ class CcnFamily(ClimateFamily):
         return c
 
 
+class CtsonisFamily(CcnFamily):
+    """CoupledTsonisClimateNetwork: two data sets (three nodes each), winter months selected."""
+    name = "ctsonis"
+
+    def build(self, a):
+        from pyunicorn.core import GeoGrid
+        from pyunicorn.climate import ClimateData, CoupledTsonisClimateNetwork
+        g = _grid().grid()
+        d = _data12()
+        t = np.arange(24.0)
+        cd1 = ClimateData(d[:, :3].copy(), GeoGrid(t, g["lat"][:3], g["lon"][:3], silence_level=3), 12, silence_level=3)
+        cd2 = ClimateData(d[:, 3:].copy(), GeoGrid(t, g["lat"][3:], g["lon"][3:], silence_level=3), 12, silence_level=3)
+        return CoupledTsonisClimateNetwork(cd1, cd2, non_local=bool(a["NL"]), selected_months=[0, 1, 11],
+                                           silence_level=3, **{a["MODE"]: CLIM_PARAM[a["MODE"]][a["P"]]})
+
+    def calls(self, obj, a):
+        c = CcnFamily.calls(self, obj, a)
+        c.append(("correlation", obj.correlation))
+        return c
+
+
 class EscnFamily(ClimateFamily):
     """EventSeriesClimateNetwork (event synchronisation of thresholded climate data)."""
     name = "escn"
@@ -651,7 +672,7 @@ class SurrogatesFamily:
         ]
 
 
-FAMILIES = {f.name: f for f in (SpearmanFamily(), PartialCorrFamily(), MutualInfoFamily(), HavlinFamily(), CcnFamily(), EscnFamily(), TsonisFamily(), HilbertFamily(), IsrnFamily(), SurrogatesFamily(), NetworkFamily(), DirNetworkFamily(), InteractingFamily(), GeoNetworkFamily(),
+FAMILIES = {f.name: f for f in (CtsonisFamily(), SpearmanFamily(), PartialCorrFamily(), MutualInfoFamily(), HavlinFamily(), CcnFamily(), EscnFamily(), TsonisFamily(), HilbertFamily(), IsrnFamily(), SurrogatesFamily(), NetworkFamily(), DirNetworkFamily(), InteractingFamily(), GeoNetworkFamily(),
                                 ResNetworkFamily(), RpFamily(), RnFamily(), CrpFamily(), JrpFamily(),
                                 JrnFamily(), ClimateFamily(), ClimateDataFamily(), VisibilityFamily())}
 
@@ -704,6 +725,7 @@ INIT = {
     "partialcorr": {"MODE": "threshold", "P": 1, "NL": 0, "WO": 0},
     "mutualinfo": {"MODE": "threshold", "P": 1, "NL": 0, "WO": 0},
     "havlin": {"MODE": "threshold", "P": 1, "NL": 0, "MD": 1},
+    "ctsonis": {"MODE": "threshold", "P": 1, "NL": 0},
     "isrn": {"MODE": "threshold", "P": 1},
     "ccn": {"MODE": "threshold", "P": 1, "NL": 0}, "escn": {"MODE": "threshold", "P": 1, "NL": 0},
     "network": {"A": 1, "W": 0, "LA": 0}, "dirnetwork": {"A": 1, "W": 0, "LA": 0},
